@@ -19,7 +19,10 @@ tables are never read while being rebuilt nor initialised twice.
              transform during a rebuild, release of a lock not held, use of an uninitialised lock, deadlock) and every job's
              output compared bit for bit with the same job run alone in a fresh process.  Supplement without the scheduler
              (what the hook granularity cannot see): free-running real threads after a completed initialisation, outputs vs
-             serial runs, and the same under ThreadSanitizer (any race other than the two listed ones is a violation).
+             serial runs, and the same under ThreadSanitizer; and the scheduler harness itself built with ThreadSanitizer, the
+             scheduler hidden from it and the lock shim as the only source of happens-before: conflicting accesses to FFT_LEN,
+             the table pointers or the tables that the lock does not order are reported deterministically per schedule (any
+             report other than the two listed ones is a violation).
   F9         reproduced on purpose (schedules that park one thread inside LSX_INIT_FFT_CACHE / vr_init while another
              initialises, builds and uses the tables): KNOWN-FINDING.  The signature is decided by the model during the
              replay (a thread took `i0_cold` while another was inside the initialiser = the step `ReachableS` excludes); any
@@ -259,8 +262,9 @@ def run(ctx):
     ctx.assume(
         "OpenMP simple locks behave as binary semaphores that may be released by a thread other than the acquirer (Courtois' P/V as "
         "ccrw2.h uses them; libgomp's simple locks permit it, the OpenMP specification does not promise it)",
-        "sequentially consistent execution at the granularity of the hooks: threads switch only at lock operations and yield points, "
-        "so a data race between two hooks is visible only through the events around it (the transforms themselves run unpre-empted)",
+        "sequentially consistent execution at the granularity of the hooks: threads switch only at lock operations and yield points "
+        "(the transforms themselves run unpre-empted); accesses between two hooks are judged by ThreadSanitizer's happens-before analysis of "
+        "the same deterministic schedules (lock shim = only source of happens-before) and of free-running threads, not by the event traces",
         "the abstraction does not track a thread's `len`: the model allows the upgrade whenever the real code takes it (driver-side oracle "
         "`spurious` checks the one consequence: a downgrade implies growth since the first test)",
         "outputs equal serial use: measured on the explored schedules (bit-exact comparison with a fresh-process serial run), implied for "
@@ -272,6 +276,9 @@ def run(ctx):
     # ---------------- verdicts
     active = [f for f in common.known_active(PID) if f.get("id") == "F9"]
     fr = L.free_running(ctx, bool(active))
+    ts = L.tsan_scheduled(ctx, bool(active), sets, base)
+    if ts.get("f9_tsan") and not fr.get("f9_tsan"):
+        fr["f9_tsan"] = ts["f9_tsan"]
     if knowns:
         text = ("first-use initialisation raced by two threads before either completed it (model step i0_cold with another thread inside the "
                 "initialiser) in %d explored schedules; consequences seen on the real code: %s; e.g. `%s`"
